@@ -11,7 +11,8 @@
       171  a final status of a dry run (no cancel seen) is FINISHED
            with every row DRYRUN                                  <- C17_all_dryrun_finished
       172  a dry run (no cancel seen) takes at most length g + 1
-           polls                                                  <- C17_all_dryrun_finished *)
+           polls                                                  <- C17_all_dryrun_finished
+    All four codes are PROVED silent on every dry model trace: C17_monitor_ok. *)
 From MWF Require Import Base.Util Exec.ExecBase Exec.ExecGen Exec.ExecRun Exec.ExecTrace Exec.ExecGraph
   Exec.ExecInv Exec.ExecFault Exec.ExecDry.
 
@@ -97,6 +98,16 @@ Theorem C17_gen_first : forall c g x s,
               (forall y, ~ In (EGen y) new) /\ (dry c = true -> new = []).
 Proof. exact execute_record_gen_first. Qed.
 Print Assumptions C17_gen_first.
+
+(** ** The monitor on the model's own trace.  [prop_ok 17] is the predicate the correspondence
+    run evaluates on the IMPLEMENTATION's recorded trace (no code of [family 17] raised by the
+    trace monitor of ExecTrace.v).  It holds of every dry run of the model from the initial
+    state: every well-formed graph, configuration and history of poll inputs -- cancel
+    requests, query faults, reports and submission outcomes included. *)
+Theorem C17_monitor_ok : forall c g ps, WF g -> dry c = true ->
+  prop_ok 17 c g ps (run c g (init g) ps) = true.
+Proof. exact model_prop_ok_17. Qed.
+Print Assumptions C17_monitor_ok.
 
 (** ** Non-vacuity: the graph 0 -> 2 <- 1 in a dry run. *)
 Import FaultEx.
